@@ -403,3 +403,13 @@ class DeferredDispatcherOnPost(FnCheck):
         ex.oblige(st, 'queued_exactly_once_with_its_handler_and_request', z3.And(
             z3.BoolVal(len(puts) == 1), puts[0][0] == Val.ref(self.handler.e), puts[0][1] == Val.ref(self.req.e))
             if len(puts) == 1 and puts[0][0] is not None else z3.BoolVal(False))
+
+
+# a request thread that queues an operation must not wait for the worker without bound (no hang)
+from contracts import C09 as _c09   # noqa: E402
+
+
+@register
+class EnqueueOperationBounded(_c09.EnqueueOperation):
+    id = 'C13.enqueue_operation_bounded'
+    prop = 'C13'
